@@ -9,7 +9,6 @@ import sys
 import warnings
 from contextlib import redirect_stdout
 
-sys.path.insert(0, '/repo') if '/repo' not in sys.path else None
 import os
 REPO = os.environ.get('VERIF_REPO', '/repo')
 if REPO not in sys.path:
